@@ -38,20 +38,22 @@ struct Case {
     abandon: u8,
     n: usize,
     at: usize,
+    /// run a small *failing* Shuttle run (the main task sets a label, then panics) on this thread first
+    #[serde(default)]
+    after_failed_run: bool,
 }
 
 const STEP_BOUND: usize = 5_000;
 
-fn statics_invariants(prog: &Prog, l: &ExecLog, i: usize) -> Result<(), String> {
+fn statics_invariants(prog: &Prog, l: &ExecLog, i: usize, complete: bool) -> Result<(), String> {
     // static Once: the first call in this execution runs the initializer, nobody else does
     let once: Vec<i64> = l.entries.iter().filter(|e| matches!(prog.tasks[e.task].ops[e.pc], Op::StaticOnce)).map(|e| e.obs).collect();
-    if let Some(first) = once.first() {
-        if *first != 1 {
-            return Err(format!("execution {i}: the first call_once on the static Once did not run its initializer (state leaked from an earlier execution)"));
-        }
-        if once.iter().skip(1).any(|o| *o != 0) {
-            return Err(format!("execution {i}: the static Once ran its initializer more than once"));
-        }
+    let ran = once.iter().filter(|o| **o == 1).count();
+    if ran > 1 {
+        return Err(format!("execution {i}: the static Once ran its initializer {ran} times"));
+    }
+    if complete && !once.is_empty() && ran != 1 {
+        return Err(format!("execution {i}: {} call_once calls on the static Once completed but none ran the initializer (state leaked from an earlier execution)", once.len()));
     }
     for k in 0..2 {
         let obs: Vec<i64> = l.entries.iter().filter(|e| matches!(prog.tasks[e.task].ops[e.pc], Op::Lazy(x) if x == k)).map(|e| e.obs).collect();
@@ -78,6 +80,16 @@ fn decide(c: &Case, out: &mut CaseOut) -> Result<(), Fail> {
     let progs: Vec<Arc<Prog>> = std::iter::once(Arc::new(c.prog.clone())).chain(c.other.iter().map(|p| Arc::new(p.clone()))).collect();
     let opts = Opts { initial_world: true, ..Default::default() };
     let max_steps = if c.abandon == 1 { MaxSteps::ContinueAfter(c.n.max(1)) } else { MaxSteps::FailAfter(STEP_BOUND) };
+    if c.after_failed_run {
+        // an earlier, unrelated run on this thread that fails while its main task carries a label
+        let pre = Arc::new(Prog {
+            objs: Objs::default(),
+            tasks: vec![TaskDef { kind: TaskKind::Thread, ops: vec![Op::Label(9), Op::AssertLast(12345)], tx: vec![], rx: vec![] }],
+        });
+        let r = run_prog(&pre, SchedSpec::RoundRobin { iters: 1 }.build(), quiet_config(MaxSteps::FailAfter(STEP_BOUND)), Opts::default());
+        debug_assert!(r.result.is_err());
+        out.class("after_failed_run");
+    }
     let sink = Sink::new();
     let bodies: Vec<Box<dyn Fn() + Send + Sync>> = progs.iter().enumerate().map(|(t, p)| Box::new(body_tagged(p.clone(), sink.clone(), opts, t)) as Box<dyn Fn() + Send + Sync>).collect();
     let counter = Arc::new(AtomicUsize::new(0));
@@ -90,6 +102,8 @@ fn decide(c: &Case, out: &mut CaseOut) -> Result<(), Fail> {
     let inner: Box<dyn shuttle::scheduler::Scheduler + Send> = c.sched.build();
     let stopper = if c.abandon == 2 { Stopper::new(inner, Some(c.at), c.n, None) } else { Stopper::new(inner, None, 0, None) };
     let (rec, reclog) = Recorder::new(stopper);
+    // values of the static pool leaked by failing runs of *earlier cases* in this process do not count
+    let live_base = crate::interp::LIVE.load(Ordering::SeqCst);
     let r = catch_unwind(AssertUnwindSafe(|| Runner::new(rec, quiet_config(max_steps)).run(b)));
     let last_engine = shuttle_engine::runtime::execution::CurrentSchedule::get_schedule();
     let logs = sink.take();
@@ -126,8 +140,8 @@ fn decide(c: &Case, out: &mut CaseOut) -> Result<(), Fail> {
         let prog = &progs[l.tag];
         out.evaluations += 1;
         // (c) nothing of the static pool is alive when an execution starts
-        if l.live_at_start != 0 {
-            return fail(format!("execution {i} started with {} values of the static pool (thread-locals / lazy statics) of earlier executions still alive (negative = dropped twice)", l.live_at_start));
+        if l.live_at_start != live_base {
+            return fail(format!("execution {i} started with {} values of the static pool (thread-locals / lazy statics) of earlier executions still alive (negative = dropped twice)", l.live_at_start - live_base));
         }
         // (b) pristine initial world
         match &l.initial_world {
@@ -146,8 +160,9 @@ fn decide(c: &Case, out: &mut CaseOut) -> Result<(), Fail> {
             }
             None => return fail(format!("harness: no initial world recorded for execution {i}")),
         }
+        let complete = l.main_done && evs.iter().all(|e| !matches!(e, Ev::Decision { choice: None, .. })) && !matches!(max_steps, MaxSteps::ContinueAfter(_));
         if !is_last_and_failed {
-            statics_invariants(prog, l, i).map_err(|m| (String::new(), m))?;
+            statics_invariants(prog, l, i, complete).map_err(|m| (String::new(), m))?;
             if l.termination.is_none() || true {
                 crate::props::c07::check_history(prog, &ExecLog { termination: Some(Termination::Stopped), ..l.clone() }).map_err(|m| (String::new(), format!("execution {i}: {m}")))?;
             }
@@ -155,7 +170,7 @@ fn decide(c: &Case, out: &mut CaseOut) -> Result<(), Fail> {
         // (a) stand-alone replay of the recorded schedule in a fresh run
         let mine = schedule_from_events(*seed, evs);
         if mine != engine[i] {
-            return fail(format!("execution {i}: recorded schedule differs from the scheduler's view"));
+            return fail(format!("execution {i}: recorded schedule differs from the scheduler's view: runtime {:?} vs scheduler {:?}; events {:?}; all engine {:?}; run result {:?}", engine[i], mine, evs, engine, r.as_ref().map_err(|p| payload_str(&**p))));
         }
         if !is_last_and_failed {
             let mut rp = ReplayScheduler::new_from_schedule(engine[i].clone());
@@ -177,12 +192,11 @@ fn decide(c: &Case, out: &mut CaseOut) -> Result<(), Fail> {
                     l2[0].entries.get(pos)
                 ));
             }
-            if r2.is_err() {
+            if r2.is_err() && complete {
                 return fail(format!("execution {i}: stand-alone replay of a non-failing execution failed: {}", payload_str(&*r2.unwrap_err())));
             }
         }
         // was this execution abandoned?
-        let complete = l.main_done && evs.iter().all(|e| !matches!(e, Ev::Decision { choice: None, .. }));
         if !complete {
             abandoned_before = true;
         }
@@ -207,7 +221,7 @@ fn decide(c: &Case, out: &mut CaseOut) -> Result<(), Fail> {
 
 fn case_strategy(tier: Tier) -> impl Strategy<Value = Case> {
     let fam = prop::sample::select(vec![Family::Threads, Family::Threads, Family::Mixed, Family::Locks, Family::Async, Family::Chan]);
-    (fam, any::<bool>(), sched_strategy(8), 0u8..3, 1usize..25, 0usize..4, prop::bool::weighted(0.3)).prop_flat_map(move |(family, big, sched, abandon, n, at, alt)| {
+    (fam, any::<bool>(), sched_strategy(8), 0u8..3, 1usize..25, 0usize..4, prop::bool::weighted(0.3), prop::bool::weighted(0.3)).prop_flat_map(move |(family, big, sched, abandon, n, at, alt, after_failed_run)| {
         let mut cfg = GenCfg::small(family);
         cfg.statics = true;
         cfg.max_tasks = if big { tier.pick(4, 5) } else { 3 };
@@ -220,7 +234,9 @@ fn case_strategy(tier: Tier) -> impl Strategy<Value = Case> {
             SchedSpec::RoundRobin { iters } => SchedSpec::RoundRobin { iters: iters.max(3) },
             s => s,
         };
-        (prog_strategy(cfg), prop::option::weighted(if alt { 1.0 } else { 0.0 }, prog_strategy(cfg))).prop_map(move |(prog, other)| Case { prog, other, sched: sched.clone(), abandon, n, at })
+        // DFS assumes the same body in every execution: no alternating programs under DFS
+        let sched = if alt && matches!(sched, SchedSpec::Dfs { .. }) { SchedSpec::RoundRobin { iters: 4 } } else { sched };
+        (prog_strategy(cfg), prog_strategy(cfg)).prop_map(move |(prog, other)| Case { prog, other: if alt { Some(other) } else { None }, sched: sched.clone(), abandon, n, at, after_failed_run })
     })
 }
 
